@@ -23,6 +23,8 @@ Bound == /\ ncommit' <= MaxCommits
          /\ Len(out') <= MaxOut
          /\ (ActorsOnly1 /\ last'.o = "action" => last'.s = 1)    \* session 2 only receives
 EmitBounded == Bound /\ EmitStep
+(* C13 quick tier: only the failing operations (checkpoint + revert inside action / receive) *)
+EmitFail == Bound /\ (last'.r = "err" => EmitStep)
 (* simulation: keep the walk inside the bounds; open both sessions before using them *)
 SimBound == /\ ncommit' <= MaxCommits
             /\ \A s \in 1..nsess' : Len(slog'[s]) <= MaxLog
